@@ -35,6 +35,7 @@ import gc
 import itertools
 import os
 import pickle
+import re
 import shutil
 import tempfile
 
@@ -220,6 +221,16 @@ ASSUMPTIONS = [
     "run / drop_cache / finalize; for Split the per-run theorems (split_whole_*) hold and the oracle checks histories "
     "with Split runs.  splitLoop/drainLoop use fuel (number of buffers + 1); fuel exhaustion would return 'stopped' "
     "and is excluded by proof only for the whole-flow case, by the correspondence for finite buffers",
+    "observation through the public interface only: the harness reads no private name of lena.  The buffer-size rule "
+    "of Split.__init__ (model: effBufsizeTyped = None, containsCache) is observed as behaviour: a new Split is run on a "
+    "flow of bufsize + 2 integers that logs its pulls and its end, the harness's own elements log every value they "
+    "receive and every yielded value is logged - the Split reads the whole flow at once iff the end of the input is the "
+    "first event after the pulls ('contains' of a member: the same for a Split of that member alone with bufsize=1).  "
+    "The file a Cache uses is read from its repr (Cache(\"<file>\" + ...; lena's own tests pin this text) or, if the repr "
+    "has another shape, from the attribute lena's own tests read (_filename) with getattr; if a tree shows it in neither "
+    "way the observation is skipped, never an alarm: the names are not compared with the model, the oracle takes the "
+    "names of the naming rule (name clause silent) and does not judge a history that has a template without its key; "
+    "such cases are counted in the histogram as ids:not-observable-run / -case (0 on /repo)",
     "permissions are modelled only as 'os.remove fails although something readable is at the name' (dropBlocked, "
     "exercised with a directory at the cache name); Python 2 branches of Cache.__init__ are unreachable",
 ]
@@ -702,24 +713,25 @@ def _build(op, names, vk, log, caches=None, tmpl=None, built=None):
     return start()
 
 
-def _tree_obj(t, d, counter, member=False):
+def _tree_obj(t, d, counter, member=False, log=None):
     """the real object of a container tree: "C" a Cache, "L" another element, "FC" / "FR" a FillCompute / FillRequest
-    element (as a member of a Split: a member of another type), {"seq"|"tuple"|"runif"|"split": [...]}"""
+    element (as a member of a Split: a member of another type), {"seq"|"tuple"|"runif"|"split": [...]}; with a log the
+    harness's own elements note every value they receive ("r")"""
     import lena.core
     import lena.flow
     if t == "C":
         counter[0] += 1
         return lena.flow.Cache(os.path.join(d, "rule%d.pkl" % counter[0]))
     if t == "L":
-        return _Leaf()
+        return _Leaf(log)
     if t == "FC":
-        return _FC({"a": 0}, "int")
+        return _ProbeFC({"a": 0}, "int", log)
     if t == "FR":
-        return _FR({"a": 0}, "int")
+        return _ProbeFR({"a": 0}, "int", log)
     (kind, kids), = t.items()
     if kind == "split":
-        return lena.core.Split([_tree_obj(k, d, counter, True) for k in kids])
-    objs = [_tree_obj(k, d, counter) for k in kids]
+        return lena.core.Split([_tree_obj(k, d, counter, True, log) for k in kids])
+    objs = [_tree_obj(k, d, counter, False, log) for k in kids]
     if kind == "tuple" and member:
         return tuple(objs)
     if kind == "runif":
@@ -728,19 +740,84 @@ def _tree_obj(t, d, counter, member=False):
 
 
 class _Leaf(object):
+    def __init__(self, log=None):
+        self.log = log
+
     def run(self, flow):
         for val in flow:
+            if self.log is not None:
+                self.log.append("r")
             yield val
 
 
-def _bufrule(op, d):
-    """Split(members, bufsize)._bufsize is None?  (a private attribute read by the harness)"""
+class _ProbeFC(_FC):
+    def __init__(self, spec, vk, log=None):
+        _FC.__init__(self, spec, vk)
+        self.log = log
+
+    def fill(self, val):
+        if self.log is not None:
+            self.log.append("r")
+        _FC.fill(self, val)
+
+
+class _ProbeFR(_FR):
+    def __init__(self, spec, vk, log=None):
+        _FR.__init__(self, spec, vk)
+        self.log = log
+
+    def fill(self, val):
+        if self.log is not None:
+            self.log.append("r")
+        _FR.fill(self, val)
+
+
+def _probe_flow(n, log):
+    for i in range(n):
+        log.append("p")
+        yield i
+    log.append("$")
+
+
+def _reads_whole_flow(trees, bufsize, d):
+    """Does Split(members, bufsize) read its whole input before anything downstream of the buffer happens?  Observed on
+    the public interface only: a new Split (its Caches on new files in a new directory below d) is run on a flow that is
+    longer than bufsize and logs every pull and its end; the harness's own elements inside the members log every value
+    they receive, and every value the Split yields is logged.  The Split reads the whole flow at once iff the end of the
+    input is the first event after the pulls.  Returns (whole, error): error is the exception of the run, if any."""
     import lena.core
-    import lena.core.split
-    counter = [0]
-    sp = lena.core.Split([_tree_obj(t, d, counter, True) for t in op["members"]], bufsize=op["bufsize"])
-    cc = getattr(lena.core.split, "_contains_cache", None)
-    return {"none": sp._bufsize is None, "contains": [bool(cc(m)) if cc else None for m in sp._seqs]}
+    sub = tempfile.mkdtemp(prefix="rule-", dir=d)
+    log = []
+    sp = lena.core.Split([_tree_obj(t, sub, [0], True, log) for t in trees], bufsize=bufsize)
+    n = 4 if bufsize is None else bufsize + 2
+    err = None
+    it = sp.run(_probe_flow(n, log))
+    try:
+        for _ in it:
+            log.append("o")
+    except CaseTimeout:
+        raise
+    except BaseException as e:
+        err = exc_name(e)
+    it = None
+    gc.collect()
+    first = next((ev for ev in log if ev != "p"), None)
+    return first == "$", err
+
+
+def _bufrule(op, d):
+    """the buffer-size rule of Split(members, bufsize), observed as behaviour (no private name of lena is read):
+    "none": the Split reads the whole flow at once; "contains"[i]: a Split of member i alone, with bufsize=1, does"""
+    ob = {}
+    ob["none"], err = _reads_whole_flow(op["members"], op["bufsize"], d)
+    ob["contains"] = []
+    for t in op["members"]:
+        whole, e = _reads_whole_flow([t], 1, d)
+        ob["contains"].append(whole)
+        err = err or e
+    if err:
+        ob["err"] = err
+    return ob
 
 
 def _tree_has_cache(t):
@@ -752,6 +829,37 @@ def _tree_has_cache(t):
     return any(_tree_has_cache(k) for k in kids)
 
 
+_CACHE_REPR = re.compile(r'Cache\("(.*)" \+ "\[cache [^"]*\]"\*0, recompute=', re.S)
+
+
+def _cache_file(c):
+    """the file a Cache element uses now.  Public interface: its representation `Cache("<file>" + "[cache ...]"*0,
+    recompute=...)` (lena's own tests pin this text).  If the representation has another shape: the attribute that
+    lena's own tests read (`_filename`), read defensively.  None: this tree shows the file name in neither way - the
+    observation is skipped for the run (classify counts it as ids:not-observable), never an alarm."""
+    try:
+        m = _CACHE_REPR.match(repr(c))
+    except Exception:
+        m = None
+    if m:
+        return m.group(1)
+    f = getattr(c, "_filename", None)
+    return f if isinstance(f, str) else None
+
+
+def _cache_id(c, names, show=True):
+    f = _cache_file(c)
+    if f is None:
+        return None
+    if f in names:
+        return names.index(f)
+    return "?" + (os.path.basename(f) if show else "")
+
+
+def _ids_observed(ob):
+    return not any(c is None for c in ob.get("ids", []))
+
+
 def _run_op(op, names, vk, leaked, tmpl=None, built=None):
     log = []
     ob = {"out": [], "snaps": []}
@@ -759,15 +867,14 @@ def _run_op(op, names, vk, leaked, tmpl=None, built=None):
     try:
         it = _build(op, names, vk, log, caches, tmpl, built)
         if op["op"] in ("run", "splitrun"):
-            # the file every Cache element of the pipeline uses (a private attribute read by the harness)
-            ob["ids"] = [names.index(c._filename) if c._filename in names else "?" + os.path.basename(c._filename)
-                         for c in caches]
+            # the file every Cache element of the pipeline uses (None: this tree does not show it, see _cache_file)
+            ob["ids"] = [_cache_id(c, names) for c in caches]
     except CaseTimeout:
         raise
     except BaseException as e:  # building a pipeline runs no generator body - unless an element's run is eager
         ob["end"] = "build:" + exc_name(e)
         ob["ev"] = log
-        ob.setdefault("ids", [names.index(c._filename) if c._filename in names else "?" for c in caches])
+        ob.setdefault("ids", [_cache_id(c, names, False) for c in caches])
         gc.collect()
         return ob
     take = op["take"]
@@ -982,16 +1089,22 @@ def compare(case, res, replies):
         b = dict(b)
         ref = b.pop("ref", None)
         spec = b.pop("spec", None)
+        if "ids" in a and not _ids_observed(a):
+            # the tree does not show which file a Cache uses (_cache_file): nothing to compare the model's names with
+            a = {k: v for k, v in a.items() if k != "ids"}
+            b_ids = b.pop("ids", None)
+        else:
+            b_ids = b.get("ids")
         if jdump(a) != jdump(b):
             keys = [k for k in sorted(set(a) | set(b)) if jdump(a.get(k)) != jdump(b.get(k))]
             return (f"op {i} ({op['op']}): impl and model differ in {keys}: impl "
                     + jdump({k: a.get(k) for k in keys})[:300] + " model " + jdump({k: b.get(k) for k in keys})[:300])
         if op["op"] == "run":
-            if b["ids"] != _static_ids(case, op["els"])[0]:
-                return (f"op {i}: Lean resolve gives the cache files {b['ids']}, the Python naming rule "
+            if b_ids != _static_ids(case, op["els"])[0]:
+                return (f"op {i}: Lean resolve gives the cache files {b_ids}, the Python naming rule "
                         f"{_static_ids(case, op['els'])[0]}")
             # (pipeFlow and the vocabulary do not distinguish exception classes: the reference is taken without them)
-            els = [{k: v for k, v in e.items() if k != "rk"} for e in _resolved(op, b["ids"])]
+            els = [{k: v for k, v in e.items() if k != "rk"} for e in _resolved(op, b_ids)]
             src0 = {k: v for k, v in op["src"].items() if k != "rk"}
             flow, inputs, replay = _pipe_flow(finals, src0, els)
             if ref != {"vals": flow[0], "exc": flow[1]}:
@@ -1000,7 +1113,7 @@ def compare(case, res, replies):
             k = op["take"]
             end = "stopped" if (k is not None and k <= len(flow[0])) else ("exhausted" if flow[1] is None else flow[1])
             erased = _pipe_flow([None] * len(finals), src0, [e for e in els if e["k"] == "map"])[0]
-            py = {"distinct": len(set(b["ids"])) == len(b["ids"]),
+            py = {"distinct": len(set(b_ids)) == len(b_ids),
                   "nofilled": replay is None,
                   "modeok": op.get("mode", "source") not in ("bare_hoist", "bare_meta") or (len(els) == 1 and els[0]["k"] == "cache"),
                   "erased": {"vals": erased[0], "exc": erased[1]},
@@ -1025,16 +1138,19 @@ def oracle(case, res):
     nc = case["nc"]
     stored = [None] * nc          # the flow that the last complete storing run of cache c saw
     made = {}                     # which caches were filled when the Split object of a (re-used) pipeline was made
+    if _ids_skipped(case, res) == "case":
+        return None
     for i, (op, ob) in enumerate(zip(case["hist"], res["ops"])):
         where = f"op {i} {_show_op(op)}"
         maybe_dropped = set()
         if op["op"] == "run":
-            if any(type(c) is not int for c in ob.get("ids", [])):
-                return f"cache-name: {where}: a Cache uses a file outside the names of the case: {ob.get('ids')}"
-            msg = _name_clause(case, where, _static_ids(case, op["els"])[0], ob.get("ids", []))
+            ids = ob.get("ids", []) if _ids_observed(ob) else _static_ids(case, op["els"])[0]
+            if any(type(c) is not int for c in ids):
+                return f"cache-name: {where}: a Cache uses a file outside the names of the case: {ids}"
+            msg = _name_clause(case, where, _static_ids(case, op["els"])[0], ids)
             if msg:
                 return msg
-            els = _resolved(op, ob.get("ids", []))
+            els = _resolved(op, ids)
             (vals, exc), inputs, replay = _pipe_flow(stored, op["src"], els)
             hoisted = op.get("mode", "source") in ("hoist", "hoist_src", "bare_hoist", "bare_meta")
             eager = [j for j, e in enumerate(els) if e.get("eager") and not (hoisted and replay is not None and j < replay)]
@@ -1093,11 +1209,12 @@ def oracle(case, res):
             # makes of them: the outer pipeline is pulled whatever the branch does (and may be pulled to its end, and
             # its caches filled, before the consumer stops); an exception of the outer pipeline may arrive before all
             # earlier values were yielded.  The branch is a pipeline on the values of the outer flow.
-            if any(type(c) is not int for c in ob.get("ids", [])):
-                return f"cache-name: {where}: a Cache uses a file outside the names of the case: {ob.get('ids')}"
+            ids = ob.get("ids", []) if _ids_observed(ob) else _split_static_ids(case, op)
+            if any(type(c) is not int for c in ids):
+                return f"cache-name: {where}: a Cache uses a file outside the names of the case: {ids}"
             if ob["end"].startswith("build:"):
                 return f"build-failed: {where}: putting the pipeline together raised {ob['end'][6:]}"
-            msg = _name_clause(case, where, _split_static_ids(case, op), ob.get("ids", []))
+            msg = _name_clause(case, where, _split_static_ids(case, op), ids)
             if msg:
                 return msg
             if _multi(op) or op.get("bare"):
@@ -1105,12 +1222,12 @@ def oracle(case, res):
                 key = _shape_key(op)
                 if not (op.get("reuse") and key in made):
                     made[key] = [x is not None for x in stored]
-                outer, members = _members_resolved(op, ob.get("ids", []))
+                outer, members = _members_resolved(op, ids)
                 msg, maybe_dropped = _multi_phase(where, stored, op["src"], outer, members, op["bufsize"], ob, op["take"],
                                                   made[key])
             else:
-                outer = _resolved(op, ob.get("ids", []), "outer")
-                branch = _resolved(op, ob.get("ids", []), "branch", sum(1 for e in outer if e["k"] == "cache"))
+                outer = _resolved(op, ids, "outer")
+                branch = _resolved(op, ids, "branch", sum(1 for e in outer if e["k"] == "cache"))
                 msg, maybe_dropped = _two_phase(where, stored, op["src"], outer, branch, ob, op["take"],
                                                 n_tail=sum(1 for w in op.get("wrap") or [] if w == "msplit"))
             if msg:
@@ -1120,6 +1237,8 @@ def oracle(case, res):
                 stored[op["c"]] = []          # somebody else's (empty) cache: it is the stored flow from now on
         elif op["op"] == "bufrule":
             # a Sequence member is run once per buffer: a Cache anywhere inside it must get the whole flow
+            if ob.get("err"):
+                return (f"split-run-failed: {where}: running the Split on a flow of integers raised {ob['err']}")
             if op["bufsize"] is not None and any(_tree_has_cache(t) for t in op["members"]) and not ob["none"]:
                 return (f"cache-per-buffer: {where}: a member of the Split holds a Cache, but the Split keeps "
                         f"bufsize={op['bufsize']}: the Cache would store one buffer as the complete flow")
@@ -1147,6 +1266,21 @@ def oracle(case, res):
                 return (f"cache-content: after {where} the file of cache {c} holds {f}, but the complete run that "
                         f"stored it saw {stored[c]}")
     return None
+
+
+def _ids_skipped(case, res):
+    """None: every run of the history showed which files its Caches use.  Otherwise the observation is skipped (the tree
+    shows the names neither in repr nor in `_filename`): "run" - the oracle takes the names of the naming rule instead
+    (the name clause then says nothing); "case" - a template without its key is among them, whose file the statement
+    does not fix: the oracle does not judge the history"""
+    if all(_ids_observed(ob) for ob in res["ops"]):
+        return None
+    nb, V = case.get("nb", case["nc"]), case.get("V", 0)
+    for op in case["hist"]:
+        ids = _static_ids(case, op["els"])[0] if op["op"] == "run" else (_split_static_ids(case, op) if op["op"] == "splitrun" else [])
+        if any(e >= nb and (e - nb) % (V + 1) == 0 for e in ids):
+            return "case"
+    return "run"
 
 
 def _name_clause(case, where, expected, observed):
@@ -1389,7 +1523,8 @@ def signature(case, failure):
 
 
 def classify(case, res):
-    labels = ["family:" + case.get("fam", "?"), "vk:" + case.get("vk", "int"), "names:" + ("subdirs" if case.get("dirs") else "flat"),
+    skipped = _ids_skipped(case, res)
+    labels = (["ids:not-observable-" + skipped] if skipped else []) + ["family:" + case.get("fam", "?"), "vk:" + case.get("vk", "int"), "names:" + ("subdirs" if case.get("dirs") else "flat"),
               "model:" + ("yes" if _modelled(case) else "oracle-only")]
     for op, ob in zip(case["hist"], res["ops"]):
         if op["op"] == "run":
